@@ -191,3 +191,61 @@ func clusterPool(c *core.Ctx, r *core.Rand, i int) {
 	c.Count("cluster_pool_scenarios", 1)
 	c.Distinct(core.Hash64("cluster-pool", fmt.Sprint(rounds, i%3)))
 }
+
+// dialContextRecovery: a client made with DialContext (the library's own TLS dialer) under a context that the caller
+// cancels once the client exists - the usual "dial with a timeout". The server restarts; the client's later calls
+// reconnect and succeed: the reconnection is not tied to the context of the original dial.
+func dialContextRecovery(c *core.Ctx, r *core.Rand, i int) {
+	srvCfg, cliCfg := c08.TLSConfigs()
+	m0 := &poolMember{addr: "127.0.0.1:0", cfg: srvCfg}
+	if err := m0.start(); err != nil {
+		c.Inconclusive("dial-context: cannot listen on loopback: " + err.Error())
+		return
+	}
+	defer m0.stop()
+	ctx, cancel := context.WithTimeout(context.Background(), 10*time.Second)
+	var cl *kmipclient.Client
+	var err error
+	if p, pv, st := core.Guard(func() {
+		cl, err = kmipclient.DialContext(ctx, m0.addr, kmipclient.WithTlsConfig(cliCfg.Clone()), kmipclient.EnforceVersion(kmip.V1_4))
+	}); p {
+		cancel()
+		c.Violation(core.PanicSig(pv, st), fmt.Sprintf("DialContext panicked: %v", pv), map[string]any{"stack": st})
+		return
+	}
+	cancel() // the dial is over: its context ends
+	if err != nil {
+		c.Inconclusive("dial-context: DialContext over loopback TLS fails: " + err.Error())
+		return
+	}
+	defer func() { core.Guard(func() { cl.Close() }) }()
+	call := func(id string) error {
+		var err error
+		cctx, ccancel := context.WithTimeout(context.Background(), 20*time.Second)
+		defer ccancel()
+		if p, pv, st := core.Guard(func() { _, err = cl.Activate(id).ExecContext(cctx) }); p {
+			c.Violation(core.PanicSig(pv, st), fmt.Sprintf("client call panicked: %v", pv), map[string]any{"stack": st})
+			return fmt.Errorf("panic")
+		}
+		return err
+	}
+	if err := call("dc-warm"); err != nil {
+		c.Inconclusive("dial-context: first call fails: " + err.Error())
+		return
+	}
+	for k := 0; k < 1+r.Intn(2); k++ {
+		m0.stop()
+		if err := m0.start(); err != nil {
+			c.Inconclusive("dial-context: server cannot be restarted on its port: " + err.Error())
+			return
+		}
+		e1 := call(fmt.Sprintf("dc%d-%d-a", i, k))
+		e2 := call(fmt.Sprintf("dc%d-%d-b", i, k))
+		c.Count("dial_context_restarts", 1)
+		if e1 != nil && e2 != nil {
+			c.Violation("C11:no-recovery:dial-context", fmt.Sprintf("two consecutive calls fail after the server was restarted (the context of the original DialContext has ended): %v", e2), nil)
+			return
+		}
+	}
+	c.Distinct(core.Hash64("dial-context", fmt.Sprint(i%3)))
+}
